@@ -239,6 +239,45 @@ func runC09(cfg *hx.Config) {
 			}
 			outs = append(outs, out)
 		}
+		// schedules: the output is a function of the name -> value set, not of WHEN each parameter's writer is requested and
+		// used: (a) all writers requested first, values written afterwards in another order; (b) pairwise interleaving
+		for sched := 0; sched < 2; sched++ {
+			order := append([]string{}, keys...)
+			for i := len(order) - 1; i > 0; i-- {
+				j := r.Intn(i + 1)
+				order[i], order[j] = order[j], order[i]
+			}
+			out, err := restlicodec.BuildQueryParams(func(kw func(string) restlicodec.Writer) error {
+				ws := map[string]restlicodec.Writer{}
+				if sched == 0 {
+					for _, p := range keys {
+						ws[p] = kw(p)
+					}
+					for _, p := range order {
+						ws[p].WriteString(params[p])
+					}
+					return nil
+				}
+				for i := 0; i < len(order); i += 2 {
+					a := order[i]
+					wa := kw(a)
+					if i+1 < len(order) {
+						b := order[i+1]
+						wb := kw(b)
+						wb.WriteString(params[b])
+					}
+					wa.WriteString(params[a])
+				}
+				return nil
+			})
+			if err != nil {
+				panic(err)
+			}
+			rep.Count("query-params-schedule")
+			if out != outs[0] {
+				rep.Fail("canon:query-params-schedule", "BuildQueryParams output depends on when the parameter writers are requested / used (it must be a function of the name -> value set)", "v2/restlicodec/query_writer.go:BuildQueryParams", map[string]interface{}{"params": params, "schedule": []string{"all writers first, values later", "pairwise interleaved"}[sched], "order": order, "immediate": outs[0], "scheduled": out}, nil)
+			}
+		}
 		sorted := append([]string{}, keys...)
 		sort.Strings(sorted)
 		var names2 []string
